@@ -762,6 +762,7 @@ class Lowerer:
             rq = self.idx.qname[rec['id']]
             rt = self.parse_type(rq)
             f.record = rt
+            f.self_ctype = self.cty(rt)
             if kind != 'CXXConstructorDecl' or getattr(f, 'ctor_as_method', False):
                 params.append('%s* self' % self.cty(rt))
         for vname in getattr(f, 'region_params', []):
@@ -843,6 +844,9 @@ class Lowerer:
             guards += '#define LOOPTMPS_%s_%d %s\n' % (f.cname, k, ''.join(', ' + t for t in tl))
         for k in range(f.dropped):
             guards += '#ifndef DROPPED_STMT_%s_%d\n#define DROPPED_STMT_%s_%d ((void)0)\n#endif\n' % (f.cname, k, f.cname, k)
+        if getattr(f, 'self_ctype', None):
+            # stable name for the receiver type (instantiations over lambda types embed a source position)
+            guards += '#define SELFTYPE_%s %s\n' % (f.cname, f.self_ctype)
         guards += '#ifndef FNSPEC_%s\n#define FNSPEC_%s\n#endif\n' % (f.cname, f.cname)
         guards += '#ifndef CANARYSPEC_%s\n#define CANARYSPEC_%s\n#endif\n' % (f.cname, f.cname)
         fl, ln = node_line(n)
@@ -2276,6 +2280,11 @@ class Lowerer:
         if key.startswith('std::vector<'):
             self.need_record(bt)
             if name == 'operator[]':
+                if self.spec.get('index_asserts'):
+                    # memory safety of the access as an explicit obligation (units whose SMT back end cannot
+                    # afford cbmc's generic pointer checks): index < size of the real vector
+                    h = self.helper('idxchk', 'static inline unsigned long idxchk(unsigned long i, unsigned long n) { __CPROVER_assert(i < n, "std::vector index within bounds"); return i; }')
+                    return '(%s)->_data[%s((unsigned long)(%s), (%s)->_size)]' % (obj, h, self.expr(args[0]), obj)
                 return '(%s)->_data[%s]' % (obj, self.expr(args[0]))
             if name == 'size':
                 return '(%s)->_size' % obj
